@@ -228,6 +228,28 @@ def check_case(case):
         for a in range(len(ou) - 1):
             if U[ou[a], i] < U[ou[a + 1], i] and Xb[ou[a], i] > Xb[ou[a + 1], i]:
                 v.append(viol("b:inverse-not-monotone", f"u {U[ou[a], i]!r} < {U[ou[a + 1], i]!r} but x {Xb[ou[a], i]!r} > {Xb[ou[a + 1], i]!r} coord={c}"))
+    # the stored original bounds are the ones given (nothing else may end up clamping against them)
+    for nm, given in (("orig_lb", lb), ("orig_ub", ub), ("orig_plb", plb), ("orig_pub", pub)):
+        if not np.array_equal(np.asarray(getattr(vt, nm), dtype=float).reshape(1, -1), given):
+            v.append(viol("d:stored-bounds-differ-from-given", f"{nm}={np.asarray(getattr(vt, nm)).tolist()} given {given.tolist()}", site=nm))
+    # grid_units (the set version of the direct map) agrees with the row-wise map, also for integer-typed point sets
+    from pybads.search.grid_functions import grid_units
+    if X.shape[0] > 1:
+        try:
+            G = np.asarray(grid_units(X.copy(), vt), dtype=float)
+            if G.shape != U.shape or not np.allclose(G, U, rtol=0, atol=1e-12 * (1 + np.abs(U)), equal_nan=True):
+                v.append(viol("a:grid-units-differs-from-direct-map", f"grid_units(X) != transform(X) for X={X[:2].tolist()}", site="float"))
+            Xi = np.round(np.clip(X, -2**40, 2**40))
+            if np.all(np.isfinite(Xi)) and np.all((Xi >= lb) & (Xi <= ub)):
+                Gi = np.asarray(grid_units(Xi.astype(np.int64), vt), dtype=float)
+                Ui = vt(Xi.copy())
+                if Gi.shape != Ui.shape or not np.allclose(Gi, Ui, rtol=0, atol=1e-12 * (1 + np.abs(Ui)), equal_nan=True):
+                    v.append(viol("a:grid-units-differs-from-direct-map", f"integer-typed point set {Xi[:2].tolist()}: grid_units gives {Gi[:2].tolist()}, "
+                                  f"the direct map {Ui[:2].tolist()}", site="int"))
+                    labs.append("grid-units-int")
+        except Exception as e:  # noqa: BLE001
+            info = harness.exc_info(e)
+            v.append(viol("a:grid-units-exception", f"{info['type']}: {info['msg']}", site=info["site"], exc_type=info["type"]))
     # affine / geometric midpoint
     mids = np.array([[math.sqrt(c["plb"] * c["pub"]) if islog[i] else 0.5 * (c["plb"] + c["pub"]) for i, c in enumerate(coords)]])
     um = vt(mids.copy()).ravel()
